@@ -2,7 +2,10 @@
 
 package otto
 
-import "math"
+import (
+	"math"
+	"strings"
+)
 
 func refDigit(c byte) int {
 	switch {
@@ -323,4 +326,42 @@ func VerifH_C06_format_routes() {
 		b, _ := v.ToBoolean()
 		verifAssert(ok && b, "15.7.4.5-7: NaN and the infinities print as ToString does")
 	}
+}
+
+// 9.8.1 steps 6-10: ToString of a finite non-zero number is in decimal notation
+// exactly when 1e-6 <= |x| < 1e21 and in exponent notation otherwise, for every
+// double, by String(x), '' + x and x.toString(). Digit generation is not
+// modelled: in the engine strconv.FormatFloat of a symbolic double returns a
+// placeholder that keeps the requested format ("<float/f/-1>", "<float/g/-1>"),
+// which is what the notation is read from; in the native replay it is read
+// from the 'e' in the real text (Go's shortest 'g' form has an exponent for
+// every |x| >= 1e21 and every |x| < 1e-4, its 'f' form never has one).
+func VerifH_C06_notation_threshold() {
+	vm := New()
+	x := verifNondetFloat64()
+	verifAssume(x == x && math.Abs(x) <= math.MaxFloat64 && x != 0)
+	vm.Set("x", x)
+	script := "String(x)"
+	switch verifChoose(3) {
+	case 1:
+		script = "'' + x"
+	case 2:
+		script = "x.toString()"
+	}
+	v, ok := verifRun(vm, script)
+	verifCover("reached")
+	verifAssert(ok, "does not throw")
+	if !ok {
+		return
+	}
+	s := v.String()
+	verifLog(s)
+	gotExp := strings.Contains(s, "e") || strings.Contains(s, "/g/")
+	wantExp := math.Abs(x) >= 1e21 || math.Abs(x) < 1e-6
+	if wantExp {
+		verifCover("exponent notation")
+	} else {
+		verifCover("decimal notation")
+	}
+	verifAssert(gotExp == wantExp, "9.8.1: decimal notation exactly when 1e-6 <= |x| < 1e21")
 }
